@@ -6,9 +6,10 @@ import BipVerif.Driver.Bip44
 import BipVerif.Driver.Bip38
 import BipVerif.Driver.Monero
 import BipVerif.Driver.Substrate
+import BipVerif.Driver.Electrum
 open BipVerif.Driver
 
-def allOps : List (String × Op) := codecOps ++ bip32Ops ++ mnemonicOps ++ addrOps ++ bip44Ops ++ bip38Ops ++ moneroOps
+def allOps : List (String × Op) := codecOps ++ bip32Ops ++ mnemonicOps ++ addrOps ++ bip44Ops ++ bip38Ops ++ moneroOps ++ electrumOps
 
 def handle (line : String) : String :=
   -- request [ " | " oracle entries ]
